@@ -153,11 +153,20 @@ def gen(rng, tier):
     for k in range(1, len(fr)):
         if rng.random() < 0.15:
             fr[k] = np.empty((0, ndim))
+    far = False
+    if rng.random() < 0.2:
+        # stage-referenced coordinates: the whole movie sits near (131072, 98304, ...) while drift and search_range keep
+        # their pixel scale (a per-frame displacement of ~1e-5 of the coordinate value still moves the search origin)
+        off = np.array([rng.choice([131072., 98304., 262144., 1048576., 2097152., 1048576.]) for _ in range(ndim)])
+        fr = [f + off if len(f) else f for f in fr]
+        far = True
     sr = linkgen.gen_range(rng, ndim, quarter=q, aniso=(ndim > 1 and rng.random() < 0.3))
     mem = rng.choice([0, 1, 1, 2, 3])
     big = rng.random() < 0.5
     v = [rng.randint(-1000, 1000) if big else rng.randint(-6, 6) for _ in range(ndim)]
-    if rng.random() < 0.15:
+    if far:
+        v = [rng.choice([-1, 1]) * rng.choice([2, 3, 4, 5, 6]) for _ in range(ndim)]     # drift of the order of the search range
+    elif rng.random() < 0.15:
         # drift of ~10^5 px per frame: accumulated coordinates reach 10^6 (still exact: quarter pixels need 22 + 2 bits);
         # whether a pair is within search_range must not depend on where the predictor has moved the search origin
         v = [rng.choice([-1, 1]) * rng.choice([65536, 131072, 98304, 262144]) for _ in range(ndim)]
